@@ -481,3 +481,11 @@ fn from_data() {
 
     assert_eq!(table, table2);
 }
+
+/// Verification hook: (code, number of bits) per symbol.
+#[cfg(killingspark_zstd_rs_verif)]
+impl HuffmanTable {
+    pub fn verif_codes(&self) -> &[(u32, u8)] {
+        &self.codes
+    }
+}
